@@ -25,7 +25,8 @@ ASSUMPTIONS = [
 ]
 NONTRIVIAL_FLOOR = 0.10
 
-PRIORS = ["none", "init", "steps", "pause", "bounded", "ended", "fault", "cleanup", "steps", "pause", "bounded"]
+PRIORS = ["none", "init", "steps", "pause", "bounded", "ended", "fault", "cleanup", "steps", "pause", "bounded",
+          "endrep"]        # endrep: a bounded run, then the replication is ended early with end_replication()
 
 
 def budget(tier):
@@ -359,6 +360,15 @@ def run_case(case):
                 h.start_pause_after(pr["k"], ["start"])
             elif kind == "bounded":
                 h.run_piece(["run_up_to_incl", _bound(prog, rep0, pr["frac"])])
+            elif kind == "endrep":
+                h.run_piece(["run_up_to_incl", _bound(prog, rep0, pr["frac"])])
+                from pydsol.core.simulator import RunState as _RS0
+                if h.sim.run_state != _RS0.ENDED:
+                    try:
+                        h.sim.end_replication()
+                    except Exception as e:
+                        out.fail("end-replication-raised-" + type(e).__name__, repr(e))
+                    h.settle(allow_limbo=True)
             elif kind in ("ended", "cleanup"):
                 h.run_piece(["start"])
             elif kind == "fault":
